@@ -421,6 +421,9 @@ func runGrpc(prop string) func(h *H) {
 			steps := h.g.intn(h.budget(24, 80)) + 12
 			grpcHistory(h, prop, steps, false)
 		}
+		if prop == "C16" {
+			runConcGrpc(h, prop)
+		}
 	}
 }
 
